@@ -260,6 +260,9 @@ class Interp:
         self._genv = {}
         self._constcache = {}
         self.trace = []  # (event, data) appended by natives
+        self._sdisp = {}
+        self._edisp = {}
+        self._mro = {}
 
     # ------------------------------------------------------------------ environments
     def module_env(self, module):
@@ -289,7 +292,7 @@ class Interp:
             elif r[0] == "module":
                 v = ModRef(r[1])
             else:
-                v = self.eval(r[2], self.module_env(r[1]))
+                v = self._module_const(r[1], name, r[2])
             self._constcache[k] = v
             return v
         if name in module.imports:
@@ -300,6 +303,33 @@ class Interp:
         if name in _EXC_PARENTS or name in ("BaseException",):
             return ExcClass(name)
         raise NotModelled("name %r is not defined in the modelled fragment (%s)" % (name, module.relpath))
+
+    def _module_const(self, mod, name, expr):
+        """value of a module-level name.  A name written by one simple assignment is evaluated from that
+        expression; a name that further top-level statements mention (builder loops, subscript stores,
+        .update() ...) is obtained by evaluating those statements in order."""
+        # the assignment may live in another module than the one that imported it
+        owner = mod
+        if name not in owner.assigns:
+            return self.eval(expr, self.module_env(owner))
+        stmts = []
+        for st in owner.tree.body:
+            if isinstance(st, (ast.FunctionDef, ast.AsyncFunctionDef, ast.ClassDef, ast.Import, ast.ImportFrom)):
+                continue
+            if any(isinstance(n, ast.Name) and n.id == name for n in walk_no_nested(st)):
+                stmts.append(st)
+        if len(stmts) <= 1:
+            return self.eval(expr, self.module_env(owner))
+        env = self.module_env(owner)
+        for st in stmts:
+            try:
+                self.exec_stmt(st, env)
+            except PyRaise as e:
+                raise NotModelled("module-level statements building %s raise %s in the model" % (name, e))
+        ok, v = env.lookup(name)
+        if not ok:
+            raise NotModelled("module-level name %s is not bound by its builder statements" % name)
+        return v
 
     # ------------------------------------------------------------------ calling
     def call(self, fn, args=(), kwargs=None, node=None):
@@ -365,7 +395,10 @@ class Interp:
                     raise PyRaise("TypeError", ("missing argument %s for %s" % (p, fn.qualname),), n)
             if isinstance(n, ast.Lambda):
                 return self.eval(n.body, env)
-            is_gen = any(isinstance(x, (ast.Yield, ast.YieldFrom)) for x in walk_no_nested(n))
+            is_gen = getattr(n, "_is_gen", None)
+            if is_gen is None:
+                is_gen = n._is_gen = (not isinstance(n, ast.Lambda)) and any(
+                    isinstance(x, (ast.Yield, ast.YieldFrom)) for x in walk_no_nested(n))
             if is_gen:
                 # generator functions are evaluated eagerly (no observable laziness in the fragment)
                 env.vars["__yields__"] = []
@@ -405,7 +438,9 @@ class Interp:
 
     # ------------------------------------------------------------------ attributes
     def _class_lookup(self, cls, recv, name, start_after=None):
-        mro = cls.mro()
+        mro = self._mro.get(id(cls))
+        if mro is None:
+            mro = self._mro[id(cls)] = cls.mro()
         if start_after is not None:
             idx = [i for i, c in enumerate(mro) if c is start_after]
             mro = mro[idx[0] + 1:] if idx else []
@@ -514,7 +549,9 @@ class Interp:
         self._tick()
         if self.stmt_hook is not None:
             self.stmt_hook(self, s, env)
-        m = getattr(self, "_s_" + type(s).__name__, None)
+        m = self._sdisp.get(type(s))
+        if m is None:
+            m = self._sdisp[type(s)] = getattr(self, "_s_" + type(s).__name__, None)
         if m is None:
             raise NotModelled("statement %s (line %s) is outside the modelled fragment" % (type(s).__name__, getattr(s, "lineno", "?")))
         m(s, env)
@@ -750,7 +787,9 @@ class Interp:
 
     def eval(self, e, env):
         self._tick()
-        m = getattr(self, "_e_" + type(e).__name__, None)
+        m = self._edisp.get(type(e))
+        if m is None:
+            m = self._edisp[type(e)] = getattr(self, "_e_" + type(e).__name__, None)
         if m is None:
             raise NotModelled("expression %s is outside the modelled fragment" % type(e).__name__)
         return m(e, env)
